@@ -284,6 +284,17 @@ func swapInGapsNs(seq []byte) []byte {
 		}
 	}
 
+	// no aligned base at all (e.g. a CIGAR made of clips, insertions or deletions only):
+	// every unmapped position is an external one
+	if firstLetter {
+		for i, L := range seq {
+			if L == '*' {
+				seq[i] = '-'
+			}
+		}
+		return seq
+	}
+
 	for i, L := range seq {
 		if i < firstLetterIndx {
 			if L == '*' {
